@@ -4,6 +4,7 @@ from ..flow import fields_only
 from .common import where, short, ret_err_sites
 
 LEVEL = "other"
+CFGS_THOROUGH = ["A", "B", "D", "E"]  # hfs (cfg C) is analysed separately: see DESIGN.md F6
 EXPLANATION = (
     "Decided: (1) the framing constants equal the specification's (MAXMSGLEN 65535, TAGLEN 16, key/psk 32, MAXHASHLEN "
     "64, MAXBLOCKLEN 128, MAXDHLEN 56 or 65 with P-256); (2) lenproof postconditions — verified on every return of "
